@@ -398,6 +398,19 @@ pub fn records(p: RecParams) -> BoxedStrategy<Vec<Rec>> {
     .boxed()
 }
 
+/// exactly `n` records
+pub fn records_exact(p: RecParams, n: usize) -> BoxedStrategy<Vec<Rec>> {
+    vec((id_strategy(), desc_strategy(), prop_oneof![4 => rec_seq(p), 1 => degenerate_seq(p)]), n)
+        .prop_map(|v| {
+            uniq_ids(
+                v.into_iter()
+                    .map(|(id, desc, seq)| Rec { id, desc, seq: Bytes(seq) })
+                    .collect(),
+            )
+        })
+        .boxed()
+}
+
 /// container generator; FASTQ is only chosen when `allow_fastq` (all records have >= 1 base)
 pub fn container(allow_fastq: bool) -> BoxedStrategy<Container> {
     let wrap = prop_oneof![2 => Just(None), 1 => (1usize..=120).prop_map(Some), 1 => select(vec![1usize, 2, 60, 70, 80]).prop_map(Some)];
